@@ -49,6 +49,7 @@ FIRST_MISSED = {
     "C10-5": "no check reported it -> GBNHS-7: a handshake timeout makes the client send its SYN again",
     "C10-6": "no check reported it -> GBNHS-3: the restart shortcut is entered only through a type test for SYNACK or DATA",
     "C15-6": "own property silent (reported by C02/C07 for side reasons) -> DUPLEX: Decrypt on the read path returns a fresh buffer; shared by C15",
+    "C11-5": "no check reported it -> PUBLISH/SIDFRESH: after split() no return is reachable before SetRemote on the version >= 2 paths",
     "C06-3": "no check reported it -> RATELIMIT: once lastResend is refreshed the packets are transmitted",
 }
 
